@@ -192,17 +192,23 @@ void TraceRecorder::saveLog(const char *logFile, const char *processName)
 
   fout << "[";
 
+  // The separator is written in front of every record but the first: the
+  // output may be something that cannot seek back to remove a trailing comma
+  // (a pipe, /dev/stdout)
+  const char *separator = "";
+
   // Emit metadata about the process name
   if (processName) {
     // Emit metadata event for the thread's ID/name
-    fout << "{"
+    fout << separator << "{"
          << "\"ph\": \"M\","
          << "\"pid\":" << pid << ","
          << "\"tid\":" << 0 << ","
          << "\"name\":"
          << "\"process_name\","
          << "\"args\":{\"name\":\"" << jsonEscaped(processName) << "\"}"
-         << "},";
+         << "}";
+    separator = ",";
   }
 
   // Go through each thread and output its data
@@ -213,7 +219,7 @@ void TraceRecorder::saveLog(const char *logFile, const char *processName)
     const std::thread::id tid = trace.first;
 
     // Emit metadata event for the thread's ID/name
-    fout << "{"
+    fout << separator << "{"
          << "\"ph\": \"M\","
          << "\"pid\":" << pid << ","
          << "\"tid\":" << nextTid << ","
@@ -225,7 +231,8 @@ void TraceRecorder::saveLog(const char *logFile, const char *processName)
     } else {
       fout << tid << "\"}";
     }
-    fout << "},";
+    fout << "}";
+    separator = ",";
 
     // Track the begin events so that when we hit an end we can compute CPU %
     // and other stats to include
@@ -248,7 +255,7 @@ void TraceRecorder::saveLog(const char *logFile, const char *processName)
                 evt.time.time_since_epoch())
                 .count();
 
-        fout << "{"
+        fout << separator << "{"
              << "\"ph\": \"" << evt.type << "\","
              << "\"pid\":" << pid << ","
              << "\"tid\":" << nextTid << ","
@@ -275,7 +282,7 @@ void TraceRecorder::saveLog(const char *logFile, const char *processName)
         } else if (evt.type == EventType::COUNTER) {
           fout << ",\"args\":{\"value\":" << evt.counterValue << "}";
         }
-        fout << "},";
+        fout << "}";
 
         // For each end event also emit an update of the CPU % utilization
         // counter for events that were long enough to reasonably measure
@@ -287,14 +294,14 @@ void TraceRecorder::saveLog(const char *logFile, const char *processName)
                   begin->time.time_since_epoch())
                   .count();
 
-          fout << "{"
+          fout << separator << "{"
                << "\"ph\": \"C\","
                << "\"pid\":" << pid << ","
                << "\"tid\":" << nextTid << ","
                << "\"ts\":" << beginTimestamp << ","
                << "\"name\":\"cpuUtilization\","
                << "\"cat\":\"builtin\","
-               << "\"args\":{\"value\":" << utilization << "}},";
+               << "\"args\":{\"value\":" << utilization << "}}";
         }
       }
     }
@@ -307,11 +314,6 @@ void TraceRecorder::saveLog(const char *logFile, const char *processName)
     }
     ++nextTid;
   }
-  // We need to remove the last , we output to ensure the JSON array is correct
-  // Overwrite it with the ] character.
-  // (if nothing at all was written the '[' must stay)
-  if (processName || !threadTrace.empty())
-    fout.seekp(-1, std::ios::cur);
   fout << "]";
 }
 
